@@ -187,8 +187,8 @@ Definition aval_of_cell (c : cell) : aval :=
   match c with
   | CMsg b => AMsg b
   | CScalar true v => AScalar v
-  | CSeq l => ASeq l
-  | _ => AScalar 0
+  | CSeq (x :: l) => ASeq (x :: l)
+  | _ => AScalar 0      (* zero value (an allocated empty slice reads like nil) *)
   end.
 
 Definition abs_field (cf : cfg) (s : state) (f : fld) : option aval :=
